@@ -745,6 +745,8 @@ void run_bfd_case(vh::Rng &r, const BfdCfg &cfg) {
         tfd_r = tfd_w = sv[0]; l.raw.rfd = l.raw.wfd = sv[1];
     } else if (l.tr == kTcp) {
         int sv[2];
+        if (sb_t == 1) sb_t = 4608;         //! below two segments of receive buffer every window update waits for the persist timer
+        if (sb_r == 1) sb_r = 4608;
         if (!tcp_pair(sv, sb_t, sb_r)) { vh::counter("setup_failed"); g = nullptr; return; }
         tfd_r = tfd_w = sv[0]; l.raw.rfd = l.raw.wfd = sv[1];
         tcp_tune(sv[0], false);
